@@ -19,14 +19,25 @@
 //   KF-C10-2  maximize()/minimize(): when both components bound the expression the LOOSER bound is returned
 //             (the comment in the code says "use the minimum values"), together with that component's
 //             `maximum' flag and generator.  Check q.optimize.tightest.  Guard: that comparison only.
-//   KF-C10-3  add_constraint(s) / add_recycled_constraints / add_congruence(s) / add_recycled_congruences are not
-//             exception safe: when one component rejects the argument (std::invalid_argument) the other one may
-//             already have been refined and the `reduced' flag is left set, so OK() is false afterwards.
-//             Check q.OK.  Guard: objects that went through such a throwing call only.
+//   KF-C10-3  Product(cs) / Product(cgs) / add_constraint(s) / add_recycled_constraints / add_congruence(s) /
+//             add_recycled_congruences forward to the components' constructors / add_* methods, which throw
+//             std::invalid_argument for anything the component cannot represent exactly (an inequality for a Grid,
+//             a proper congruence for a polyhedron/box/shape, a non-difference constraint for a BD_Shape, ...): the
+//             product documents only dimension-incompatibility, and Examples 1-4 of the class documentation all
+//             throw.  Moreover the calls are not exception safe: the other component may already have been refined
+//             and the `reduced' flag is left set, so OK() is false afterwards.
+//             Checks op.add.undocumented_exception, q.OK.  Guard: the throwing calls / objects that went through one.
 //   KF-C10-4  unconstrain, upper_bound_assign(_if_exact), time_elapse_assign, topological_closure_assign and the
 //             dimension-changing operators leave the `reduced' flag set although their result need not be reduced
 //             (e.g. (P, B) reduced, then unconstrain x0: P' implies x1 <= 0, B' is the universe): OK() is false and
 //             later observers never reduce again.  Check q.OK.  Guard: objects whose flag survived such an operator.
+//   KF-C10-7  strictly_contains(y) is (d1 >= y.d1 && d2 > y.d2) || (d2 >= y.d2 && d1 > y.d1): it answers true for two
+//             products denoting the SAME set whose second components differ only by constraints that are
+//             redundant for the intersection (C_Polyhedron x BD_Shape Constraints_Product: a = {x,y >= 0, x+y <= 1},
+//             b = a refined with x <= 1).  Check q.strictly_contains.strict.  Guard: that comparison only.
+//   KF-C10-8  OK() demands that reduce() be idempotent, but Constraints_Reduction (one pass d1 <- d2, d2 <- d1, and
+//             Box/BD_Shape refinement without propagation to a fixpoint) is not: OK() is false right after a genuine
+//             reduction.  Check q.OK.  Guard: flag set, neither KF-C10-3 nor KF-C10-4 applies, both components OK().
 //   KF-C10-5  (base level, shows through the product) Box::relation_with(const Congruence&) mis-computes the
 //             representative of a proper congruence when the expression is negative on the box
 //             (box {x = 2}, -3x - 2 = 0 (mod 4): IS_DISJOINT although -8 = 0 (mod 4)); the product ORs the claims.
@@ -152,7 +163,7 @@ struct Prog {
   static const bool G = std::is_same<D1, Grid>::value;              // grid pair: sample oracle
   static const bool BOX = std::is_same<D2, Rational_Box>::value;    // Box: generalized/bounded images avoided (KF-C03-*)
   static const bool SHAPE = std::is_same<D2, BD_Shape<mpq_class> >::value || std::is_same<D2, Octagonal_Shape<mpq_class> >::value;
-  static const bool NNC = std::is_same<D1, NNC_Polyhedron>::value && BOX;   // both components support strict constraints
+  static const bool NNC = (std::is_same<D1, NNC_Polyhedron>::value && BOX) || (G && (BOX || std::is_same<D2, NNC_Polyhedron>::value));   // strict constraints are representable
   Ctx& c; Tape& t; std::string name;
   struct Obj { P p; size_t n; Snap s; bool tainted = false;   // tainted: an add_* call threw half-way (KF-C10-3)
     bool stale = false;     // went through a transformer that keeps the `reduced' flag set (KF-C10-4)
@@ -207,6 +218,12 @@ struct Prog {
     else for (size_t i = 0; i < after.in1.size(); ++i) c.check("op." + op + ".within", !(after.member(i) && !before.member(i)), [&] { return op + ": point " + show_pt(window(after.n)[i]) + " appeared: " + before.show() + " -> " + after.show(); });
   }
 
+  // an add_* call / constructor threw std::invalid_argument for a dimension-compatible argument (undocumented: KF-C10-3)
+  void threw(const std::string& what, const std::exception& e) {
+    c.tag(what + " threw");
+    if (kf("KF-C10-3")) { c.excluded("KF-C10-3"); return; }
+    c.check("op.add.undocumented_exception", false, [&] { return what + " threw std::invalid_argument for a dimension-compatible argument: " + e.what(); });
+  }
   // ------------------------------------------------------------ generators
   LE small_le(size_t n, int zero_pct = 35) { LE e(n); for (size_t j = 0; j < n; ++j) e.a[j] = t.chance(zero_pct) ? 0 : t.range(-3, 3); e.b = t.range(-4, 4); return e; }
   void fix_con(RCon& k, const std::vector<long>& w) {
@@ -257,12 +274,12 @@ struct Prog {
         for (int i = 0; i < m; ++i) { cs.push_back(gen_c(n, wit, false)); pcs.insert(to_ppl(cs.back())); }
         c.log << "  new(dim " << n << ") from Constraint_System " << show_cs(cs);
         try { if (t.chance(50)) o.p = P(pcs); else { const Constraint_System& k = pcs; o.p = P(k); } c.log << "\n"; }
-        catch (std::invalid_argument&) { c.log << "   -> invalid_argument (universe kept)\n"; c.tag("ctor(cs) threw"); o.p = P(n, UNIVERSE); } }
+        catch (std::invalid_argument& e) { c.log << "   -> invalid_argument (universe kept)\n"; threw("ctor(cs)", e); o.p = P(n, UNIVERSE); } }
       else { std::vector<RCg> cs; int m = (int) t.range(1, 2); Congruence_System pcs; pcs.set_space_dimension(n);
         for (int i = 0; i < m; ++i) { cs.push_back(gen_cg(n, wit, false)); pcs.insert(to_ppl(cs.back())); }
         c.log << "  new(dim " << n << ") from Congruence_System " << show_cgs(cs);
         try { if (t.chance(50)) o.p = P(pcs); else { const Congruence_System& k = pcs; o.p = P(k); } c.log << "\n"; }
-        catch (std::invalid_argument&) { c.log << "   -> invalid_argument (universe kept)\n"; c.tag("ctor(cgs) threw"); o.p = P(n, UNIVERSE); } }
+        catch (std::invalid_argument& e) { c.log << "   -> invalid_argument (universe kept)\n"; threw("ctor(cgs)", e); o.p = P(n, UNIVERSE); } }
     }
     else {
       c.log << "  new(dim " << n << ", UNIVERSE) refined with";
@@ -299,7 +316,7 @@ struct Prog {
       if (how == 0) o.p.refine_with_constraint(to_ppl(cs[0])); else if (how == 1) o.p.add_constraint(to_ppl(cs[0]));
       else if (how == 2) o.p.refine_with_constraints(pcs); else if (how == 3) o.p.add_constraints(pcs); else o.p.add_recycled_constraints(pcs);
       c.log << "\n";
-    } catch (std::invalid_argument&) { c.log << "   -> invalid_argument\n"; c.tag(std::string(nm[how]) + " threw"); o.tainted = true; }
+    } catch (std::invalid_argument& e) { c.log << "   -> invalid_argument\n"; threw(nm[how], e); o.tainted = true; }
     Snap after = snap(o.p, n);
     std::string ctx = "argument " + before.show();
     if (!G) { Sys e = before.I; for (size_t i = 0; i < cs.size(); ++i) e.add(to_refcon(cs[i])); ref::Union E; E.push_back(e); expect_pieces("add_constraints", after, E, ctx); }
@@ -319,7 +336,7 @@ struct Prog {
       if (how == 0) o.p.refine_with_congruence(to_ppl(cs[0])); else if (how == 1) o.p.add_congruence(to_ppl(cs[0]));
       else if (how == 2) o.p.refine_with_congruences(pcs); else if (how == 3) o.p.add_congruences(pcs); else o.p.add_recycled_congruences(pcs);
       c.log << "\n";
-    } catch (std::invalid_argument&) { c.log << "   -> invalid_argument\n"; c.tag(std::string(nm[how]) + " threw"); o.tainted = true; }
+    } catch (std::invalid_argument& e) { c.log << "   -> invalid_argument\n"; threw(nm[how], e); o.tainted = true; }
     Snap after = snap(o.p, n);
     std::string ctx = "argument " + before.show();
     if (!G) { // points with e = 0 satisfy every congruence
@@ -374,7 +391,19 @@ struct Prog {
   }
   void t_misc(Obj& o) {
     size_t n = o.n; Snap before = o.s; std::string ctx = "argument " + before.show();
-    int op = (int) t.weighted({50, 50});
+    int op = (int) t.weighted({45, 35, 20});
+    if (op == 2) {   // drop_some_non_integer_points: every integer point must survive, nothing may appear
+      Variables_Set vs; bool all = t.chance(50); std::set<size_t> ks;
+      if (all) { for (size_t k = 0; k < n; ++k) ks.insert(k); c.log << "  drop_some_non_integer_points\n"; }
+      else { c.log << "  drop_some_non_integer_points {"; for (size_t k = 0; k < n; ++k) if (t.chance(55)) { ks.insert(k); vs.insert(Variable(k)); c.log << " x" << k; } c.log << " }\n"; }
+      Complexity_Class cc = t.pick(std::vector<Complexity_Class>{ ANY_COMPLEXITY, POLYNOMIAL_COMPLEXITY, SIMPLEX_COMPLEXITY });
+      if (all) o.p.drop_some_non_integer_points(cc); else o.p.drop_some_non_integer_points(vs, cc);
+      Snap after = snap(o.p, n); Pts pts; const Pts& w = window(n);
+      for (size_t i = 0; i < w.size(); ++i) { bool integral = true; for (size_t k : ks) if (w[i][k].get_den() != 1) integral = false; if (integral && before.has(w[i])) pts.push_back(w[i]); }
+      if (!G) { Pts ws = witnesses(before.I); for (size_t i = 0; i < ws.size(); ++i) { bool integral = true; for (size_t k : ks) if (ws[i][k].get_den() != 1) integral = false; if (integral) pts.push_back(ws[i]); } }
+      expect_points("drop_some_non_integer_points", after, pts, ctx); expect_within("drop_some_non_integer_points", before, after);
+      o.s = after; return;
+    }
     if (op == 0) {
       std::set<size_t> ks; Variables_Set vs; bool single = t.chance(60);
       if (single) { size_t k = t.range(0, (long) n - 1); ks.insert(k); c.log << "  unconstrain x" << k << "\n"; o.p.unconstrain(Variable(k)); }
@@ -548,13 +577,18 @@ struct Prog {
     case 2: { bool r = p.is_universe(); what = "is_universe"; c.log << "  ? is_universe -> " << r << "\n";
       if (r) { if (!G) c.check("q.is_universe", ref::included(Sys(n), before.I), [&] { return "is_universe() true" + ctx(); }); else c.check("q.is_universe", before.members(100000).size() == window(n).size(), [&] { return "is_universe() true" + ctx(); }); }
       break; }
-    case 3: case 4: case 5: case 6: { Obj& y = partner(o); Snap by = y.s; int w = q - 3; static const char* nm[4] = { "contains", "strictly_contains", "is_disjoint_from", "==" };
+    case 3: case 4: case 5: case 6: { Obj& y = partner(o);
+      if (t.chance(20)) { RCon k = gen_c(n, wit, false); y.p = o.p; y.n = o.n; y.tainted = o.tainted; y.stale = o.stale; y.p.refine_with_constraint(to_ppl(k)); resnap(y); c.log << "  (obj" << (&y - &pool[0]) << " := copy of this object refined with " << str(k) << ")\n"; }
+      Snap by = y.s; int w = q - 3; static const char* nm[4] = { "contains", "strictly_contains", "is_disjoint_from", "==" };
       bool r = w == 0 ? p.contains(y.p) : w == 1 ? p.strictly_contains(y.p) : w == 2 ? p.is_disjoint_from(y.p) : (p == y.p);
       what = nm[w]; c.log << "  ? " << nm[w] << " obj" << (&y - &pool[0]) << " -> " << r << "\n";
       auto cy = [&]() { return ctx() + " y = " + by.show(); };
       if (r) {
         if (!G) { bool ok = w <= 1 ? ref::included(by.I, before.I) : w == 2 ? ref::is_empty(ref::meet(before.I, by.I)) : ref::equal(before.I, by.I);
           c.check(std::string("q.") + nm[w], ok, [&] { return std::string(nm[w]) + " answered true but it does not hold for the intersections" + cy(); }); }
+        if (!G && w == 1 && ref::included(by.I, before.I)) { bool strict = !ref::included(before.I, by.I);
+          if (!strict && kf("KF-C10-7")) c.excluded("KF-C10-7");
+          else c.check("q.strictly_contains.strict", strict, [&] { return "strictly_contains answered true but the two intersections are equal" + cy(); }); }
         else for (size_t i = 0; i < before.in1.size(); ++i) { bool mx = before.member(i), my = by.member(i); bool ok = w <= 1 ? (!my || mx) : w == 2 ? !(mx && my) : mx == my;
           c.check(std::string("q.") + nm[w], ok, [&] { return std::string(nm[w]) + " answered true, refuted by the point " + show_pt(window(n)[i]) + cy(); }); }
       }
@@ -639,7 +673,8 @@ struct Prog {
       c.check("q.space_dimension", p.space_dimension() == n, "space_dimension() wrong");
       if (!ok && o.tainted && kf("KF-C10-3")) { c.excluded("KF-C10-3"); break; }
       if (!ok && o.stale && kf("KF-C10-4")) { c.excluded("KF-C10-4"); break; }
-      c.check("q.OK", ok, [&] { return std::string("OK() is false") + (o.tainted ? " (after an add_* call that threw half-way)" : "") + (o.stale ? " (after a transformer that kept the reduced flag)" : "") + ctx(); }); break; }
+      if (!ok && !o.tainted && !o.stale && before.flag && p.raw1().OK() && p.raw2().OK() && kf("KF-C10-8")) { c.excluded("KF-C10-8"); break; }
+      c.check("q.OK", ok, [&] { return std::string("OK() is false") + (o.tainted ? " (after an add_* call that threw half-way)" : "") + (o.stale ? " (after a transformer that kept the reduced flag)" : "") + (!o.tainted && !o.stale && before.flag ? " (right after a genuine reduction: reduce() is not idempotent)" : "") + ctx(); }); break; }
     }
     shrink_only(what.c_str(), o);
   }
@@ -647,6 +682,14 @@ struct Prog {
   // ------------------------------------------------------------ construction from a component domain / copies
   void rebuild(Obj& o) {
     size_t j = t.range(0, (long) pool.size() - 1); Obj& src = pool[j]; Snap bs = src.s; bool first = t.chance(50);
+    if (t.chance(25)) {   // through a product with another reduction (converting constructor, both directions)
+      c.log << "  obj" << (&o - &pool[0]) << " = Product(Direct_Product(obj" << j << "))\n";
+      Partially_Reduced_Product<D1, D2, No_Reduction<D1, D2> > other(static_cast<const typename P::Base&>(src.p));
+      P back(other); Snap ss = src.s; shrink_only("converting constructor (argument)", src); bs = ss;
+      o.p.m_swap(back); o.n = src.n; o.tainted = false; o.stale = false; Snap after = snap(o.p, o.n); std::string ctx = "source " + bs.show();
+      if (!G) { ref::Union E; E.push_back(bs.I); expect_pieces("from_product", after, E, ctx); } else expect_points("from_product", after, bs.members(100), ctx);
+      o.s = after; return;
+    }
     c.log << "  obj" << (&o - &pool[0]) << " = Product(" << (first ? "D1" : "D2") << " component of obj" << j << ")\n";
     P np = first ? P(src.p.raw1()) : P(src.p.raw2());
     o.p.m_swap(np); o.n = src.n; o.tainted = false; o.stale = false; Snap after = snap(o.p, o.n);
@@ -714,7 +757,7 @@ void vf_case(Ctx& c) {
   default: INST(Grid, C_Polyhedron, Constraints_Reduction); break;
   }
 #else
-  int k = (int) c.t.range(0, 19);
+  int k = (int) c.t.range(0, 21);
   switch (k) {
   case 0: INST(C_Polyhedron, BDS, Constraints_Reduction); break;
   case 1: INST(C_Polyhedron, BDS, No_Reduction); break;
@@ -735,7 +778,9 @@ void vf_case(Ctx& c) {
   case 16: INST(Grid, Rational_Box, Shape_Preserving_Reduction); break;
   case 17: INST(Grid, BDS, Constraints_Reduction); break;
   case 18: INST(Grid, BDS, Congruences_Reduction); break;
-  default: INST(Grid, BDS, Shape_Preserving_Reduction); break;
+  case 19: INST(Grid, BDS, Shape_Preserving_Reduction); break;
+  case 20: INST(Grid, NNC_Polyhedron, Constraints_Reduction); break;
+  default: INST(Grid, NNC_Polyhedron, Shape_Preserving_Reduction); break;
   }
 #endif
 }
